@@ -38,7 +38,7 @@ func drawScenario(rt *rapid.T, g *gctx, mkRoot func() *node) *scenario {
 	sc.root = mkRoot()
 	sc.nPhase = rapid.IntRange(1, 3).Draw(rt, "phases")
 	for i := 0; i < g.nSrc; i++ {
-		if rapid.IntRange(0, 3).Draw(rt, "srcFails") == 0 {
+		if rapid.IntRange(0, 2).Draw(rt, "srcFails") == 0 {
 			sc.results = append(sc.results, failR(kit.Errs[i]))
 		} else {
 			sc.results = append(sc.results, okR(rapid.IntRange(0, 6).Draw(rt, "srcVal")))
@@ -54,20 +54,23 @@ func drawScenario(rt *rapid.T, g *gctx, mkRoot func() *node) *scenario {
 	return sc
 }
 
-// nontrivial: >= 2 sources used by the tree, >= 1 of them fails, and they are not completed in positional order
-func (sc *scenario) nontrivial() bool {
+// nontrivial: the tree depends on >= 1 source that is completed concurrently with or after the
+// construction, and >= 1 operand (a used source or a constant leaf) fails.
+// strong: additionally >= 2 used sources that are not completed in positional order.
+func (sc *scenario) nontrivial() (nt bool, strong bool) {
 	var used []int
 	for i := range sc.root.srcs {
 		used = append(used, i)
 	}
 	sort.Ints(used)
-	if len(used) < 2 {
-		return false
-	}
-	anyFail, outOfOrder := false, false
+	anyFail := strings.Contains(sc.root.desc, "Failed(") || strings.Contains(sc.root.desc, "panic") || strings.Contains(sc.root.desc, "None") || strings.Contains(sc.root.desc, "(_,")
+	late, outOfOrder := false, false
 	for k, i := range used {
 		if !sc.results[i].Ok {
 			anyFail = true
+		}
+		if sc.phase[i] >= 0 {
+			late = true
 		}
 		if k > 0 {
 			p, q := sc.phase[used[k-1]], sc.phase[i]
@@ -76,7 +79,7 @@ func (sc *scenario) nontrivial() bool {
 			}
 		}
 	}
-	return anyFail && outOfOrder
+	return late && anyFail, late && anyFail && outOfOrder
 }
 
 func complete(p fp.Promise[int], r R) bool {
@@ -234,7 +237,7 @@ func (sc *scenario) run(newPick func() func(n int, rs []*kit.Thread) int, fail f
 	return
 }
 
-const ruleTree = "expression tree over the future combinators (leaves: source promises, Successful/Failed, Apply/Apply2/Func1 bodies incl. panicking ones; executors default/thread/inline/nil per node) + results assigned to sources (success or distinct failure) + for every source the phase in which it is completed (before construction, concurrently with construction, later) + a generated schedule at the granularity of atomic steps and spawned tasks; oracle: the same tree evaluated over Try ∪ {⊥} (left-to-right short-circuit), checked after every scheduler step (completed ⇒ reference defined and equal; value never changes) and at every quiescence (reference defined ⇔ completed), probes fire exactly once; non-trivial iff the tree uses >= 2 sources, >= 1 of them fails and they are not completed in positional order; distinct by tree+assignment+phases"
+const ruleTree = "expression tree over the future combinators (leaves: source promises, Successful/Failed, Apply/Apply2/Func1 bodies incl. panicking ones; executors default/thread/inline/nil per node) + results assigned to sources (success or distinct failure) + for every source the phase in which it is completed (before construction, concurrently with construction, later) + a generated schedule at the granularity of atomic steps and spawned tasks; oracle: the same tree evaluated over Try ∪ {⊥} (left-to-right short-circuit), checked after every scheduler step (completed ⇒ reference defined and equal; value never changes) and at every quiescence (reference defined ⇔ completed), probes fire exactly once; non-trivial iff the tree depends on >= 1 source completed concurrently with or after construction and >= 1 operand fails (label multi-source-out-of-order: additionally >= 2 used sources not completed in positional order); distinct by tree+assignment+phases"
 
 func treeCheck(t *testing.T, name string, pct bool, ops []string, rootOp string, weight float64) {
 	kit.Check(t, name, ruleTree, kit.Opt{Weight: weight}, func(rt *rapid.T, rec *kit.Rec) {
@@ -260,10 +263,13 @@ func treeCheck(t *testing.T, name string, pct bool, ops []string, rootOp string,
 		}
 		var fs, fm string
 		steps := sc.run(newPick, func(sig, msg string) { fs, fm = sig, msg })
-		nt := sc.nontrivial()
+		nt, strong := sc.nontrivial()
 		rec.Case(nt, sc.desc)
 		if nt {
 			rec.Label("nontrivial")
+		}
+		if strong {
+			rec.Label("multi-source-out-of-order")
 		}
 		rec.LabelN("steps", int64(steps))
 		if fs != "" {
